@@ -734,7 +734,7 @@ func TestC16(t *testing.T) {
 			"RuntimeDoc for every type, listed field, delegated field, unlisted and unknown name; evaluations = batches + packages; non-trivial = package (or batch) " +
 			"with an embedded or generic struct and doc text that needs escaping; distinct by JSON encoding of the package's types",
 		Assumptions: []string{
-			"embedded fields are undocumented and field names are unique per package; field docs never begin with the field's own name",
+			"field names are unique per package except own fields that shadow a field of an embedded struct (the own field answers); field docs never begin with the field's own name",
 			"names passed to non-struct types and nil embedded pointers are not asserted; doc lines carry no leading/trailing blanks, no go: prefix, no [[",
 		},
 	})
